@@ -43,6 +43,8 @@ def build_frame(spec):
     fl = spec.get('flavour', {})
     if fl.get('ceilo') == 'object':
         df['ceilo'] = df['ceilo'].astype(object)
+    elif fl.get('ceilo') == 'category':
+        df['ceilo'] = df['ceilo'].astype(object).astype('category')
     if fl.get('type') == 'float':
         df['type'] = df['type'].astype(float)
     elif fl.get('type') == 'int32':
@@ -68,13 +70,19 @@ def build_frame(spec):
         df.index = pd.Index(range(len(df)), name='hit')
     if fl.get('attrs'):
         df.attrs['source'] = 'caller'
+    if fl.get('view'):
+        # the caller hands over a slice of a larger frame of theirs
+        big = pd.concat([df, df.iloc[:3]], ignore_index=False)
+        df = big.iloc[:len(df)]
     return df
 
 
 def gen_flavour(rng):
     fl = {}
     if rng.random() < 0.4:
-        fl['ceilo'] = 'object'
+        fl['ceilo'] = rng.choice(['object', 'object', 'category'])
+    if rng.random() < 0.15:
+        fl['view'] = True
     if rng.random() < 0.4:
         fl['type'] = rng.choice(['float', 'int32'])
     if rng.random() < 0.2:
